@@ -440,6 +440,44 @@ def nocopy_probe(run):
                      ops=[f"{method}_current(logl, buf, copy=False)", "commit", "buf[...] = next", "..."])
 
 
+def zero_dim_probe(run):
+    """scalar-valued quantities supplied as 0-d ndarrays are arrays too: whatever crosses the API is a copy, and committed batches
+    do not change when the caller's (or a returned) 0-d array is overwritten in place"""
+    from tempest.state_manager import StateManager
+    for key in ("beta", "logz"):
+        sm = StateManager(1)
+        a = np.array(0.25)
+        sm.set_current(key, a)
+        a[()] = 9.0
+        run.case(key=("zero-dim", key), nontrivial=True)
+        if float(sm.get_current(key)) != 0.25:
+            run.fail("state-aliased-with-caller", f"set_current({key!r}, 0-d array) keeps the caller's array: overwriting it changed the state to "
+                     f"{float(sm.get_current(key))}", ops=[f"a = np.array(0.25); set_current({key!r}, a); a[()] = 9.0"])
+            continue
+        g = sm.get_current(key)
+        if isinstance(g, np.ndarray):
+            g[()] = 7.0
+            if float(sm.get_current(key)) != 0.25:
+                run.fail("state-aliased-with-caller", f"get_current({key!r}) returns the internal 0-d array", ops=["g = get_current(key); g[()] = 7.0"])
+                continue
+        b = np.array(0.1)
+        sm.set_current(key, b, copy=False)
+        sm.set_current("logl", np.zeros(3))
+        sm.set_current("beta" if key != "beta" else "logz", 0.0)
+        sm.commit_current_to_history()
+        b[()] = 0.4
+        sm.commit_current_to_history()
+        hist = [float(v) for v in sm._history[key]]
+        if hist[0] != 0.1:
+            run.fail("history-not-append-only", f"a committed 0-d {key} batch changed from 0.1 to {hist[0]} when the caller's buffer (copy=False) was reused",
+                     ops=[f"set_current({key!r}, b, copy=False)", "commit", "b[()] = 0.4", "commit"])
+        h = sm.get_history(key, index=0) if hasattr(sm, "get_history") else None
+        if isinstance(h, np.ndarray) and h.ndim == 0:
+            h[()] = 5.0
+            if float(sm._history[key][0]) != 0.1:
+                run.fail("state-aliased-with-caller", f"get_history({key!r}, index=0) returns the stored 0-d array", ops=["h = get_history(key, index=0); h[()] = 5.0"])
+
+
 def rejected_commit_probe(run, rng):
     """commit_current_to_history(strict=True) with a required key missing must raise and leave the history exactly as it was;
     after the missing value is supplied, one commit appends exactly one batch per set key."""
@@ -501,6 +539,7 @@ def main(tier, seed):
         sampler_level(run, tier, rng)
         nocopy_probe(run)
         rejected_commit_probe(run, rng)
+        zero_dim_probe(run)
     except Exception:
         import traceback
         run.broken.append(("harness-exception", traceback.format_exc()[-1500:]))
